@@ -7,7 +7,18 @@ namespace Lang
 
 /-! ## isinstance -/
 
-theorem instAtom_yes {P : Prog} (w : WF P) {h : Heap} {v : Val} {c : Nat} {a : Atom}
+theorem commonSub_of {P : Prog} {c d k : Nat} {kd : ClassDef} (hk : P.classes[k]? = some kd)
+    (h1 : isSub P k c = true) (h2 : isSub P k d = true) : commonSub P c d = true := by
+  simp only [commonSub, List.any_eq_true, List.mem_range, Bool.and_eq_true]
+  refine ⟨k, ?_, h1, h2⟩
+  rcases Nat.lt_or_ge k P.classes.length with h | h
+  · exact h
+  · have : P.classes[k]? = none := by simp; exact h
+    rw [this] at hk; cases hk
+
+/-- `hcs`: the item is not one that `conditional_types` drops although a common subclass exists -/
+theorem instAtom_yes {P : Prog} (w : WF P) {h : Heap} (hh : HeapOK P h) {v : Val} {c : Nat} {a : Atom}
+    (hcs : dropsInhabited P c a = false)
     (ha : hasAtom P h v a) (hc : hasAtom P h v (.cls c)) : hasTy P h v (instAtom P c a).1 := by
   unfold instAtom
   split
@@ -22,12 +33,23 @@ theorem instAtom_yes {P : Prog} (w : WF P) {h : Heap} {v : Val} {c : Nat} {a : A
       · next hcd =>
         exfalso
         cases v <;> simp [hasAtom] at ha hc
+        next l =>
         obtain ⟨k, hk, hkd⟩ := ha
         obtain ⟨k', hk', hkc⟩ := hc
         rw [hk] at hk'; cases hk'
-        rcases mro_linear w (isSub_iff.mp hkc) (isSub_iff.mp hkd) with h1 | h1
-        · exact hcd h1
+        -- the runtime class is a common subclass of d and c
+        obtain ⟨o, ho, hoc⟩ : ∃ o, h[l]? = some o ∧ o.cls = k := by
+          unfold classOf at hk
+          cases ho : h[l]? with
+          | none => simp [ho] at hk
+          | some o => simp [ho] at hk; exact ⟨o, rfl, hk⟩
+        obtain ⟨⟨kd, hkcls⟩, _⟩ := hh l o ho
+        rw [hoc] at hkcls
+        have hcom := commonSub_of hkcls hkc hkd
+        simp only [dropsInhabited, hcom, Bool.and_true, Bool.and_eq_false_iff, Bool.not_eq_false'] at hcs
+        rcases hcs with h1 | h1
         · simp [subAtom, h1] at hns
+        · exact hcd h1
     | int => cases v <;> simp [hasAtom] at ha hc
     | str => cases v <;> simp [hasAtom] at ha hc
     | bool => cases v <;> simp [hasAtom] at ha hc
@@ -86,7 +108,7 @@ theorem narrowResult_sound {P : Prog} {x : Nat} {Y N : Ty} {ai : Bool} {ms : CMa
       exact ⟨fun c => single _ (hy c), fun c => single _ (hn c)⟩
 
 theorem instMaps_sound {P : Prog} (w : WF P) {x c : Nat} {T : Ty} {ms : CMap × CMap}
-    (hm : instMaps P x c T = .ok ms) {σ : Store} {h : Heap} {v : Val}
+    (hm : instMaps P x c T = .ok ms) {σ : Store} {h : Heap} (hh : HeapOK P h) {v : Val}
     (hx : getVar σ x = some v) (hv : hasTy P h v T) :
     (hasAtom P h v (.cls c) → MapOK P h σ ms.1) ∧ (¬ hasAtom P h v (.cls c) → MapOK P h σ ms.2) := by
   have single : ∀ U : Ty, hasTy P h v U → MapOK P h σ (some [(x, U)]) := by
@@ -105,6 +127,17 @@ theorem instMaps_sound {P : Prog} (w : WF P) {x c : Nat} {T : Ty} {ms : CMap × 
       exact ⟨fun _ => MapOK.noInfo, fun hn => absurd (subAtom_sound w hs hva) hn⟩
     | false =>
       simp only [hs] at hm
+      -- a single class item unrelated to C gives an empty `yes` and is refused (ad-hoc intersection)
+      have hdrop : (instAtom P c a').1.isEmpty = false → dropsInhabited P c a' = false := by
+        intro he
+        cases a' with
+        | cls d =>
+          simp only [dropsInhabited]
+          simp only [instAtom, hs] at he
+          by_cases hcd : isSub P c d = true
+          · simp [hcd]
+          · simp [hcd] at he
+        | _ => rfl
       cases he : (instAtom P c a').1.isEmpty with
       | true =>
         have hE : (instAtom P c a').1 = [] := by simpa using he
@@ -113,18 +146,28 @@ theorem instMaps_sound {P : Prog} (w : WF P) {x c : Nat} {T : Ty} {ms : CMap × 
         | true => simp [hi] at hm
         | false =>
           simp [hi] at hm; subst hm
-          exact ⟨fun hc => absurd (hE ▸ instAtom_yes w hva hc) hasTy_nil, fun _ => MapOK.noInfo⟩
+          have hd : dropsInhabited P c a' = false := by
+            cases a' <;> simp [isInstanceAtom] at hi <;> rfl
+          exact ⟨fun hc => absurd (hE ▸ instAtom_yes w hh hd hva hc) hasTy_nil, fun _ => MapOK.noInfo⟩
       | false =>
         simp [he] at hm; subst hm
-        exact ⟨fun hc => single _ (instAtom_yes w hva hc), fun hn => single _ (instAtom_no w hva hn)⟩
+        exact ⟨fun hc => single _ (instAtom_yes w hh (hdrop he) hva hc), fun hn => single _ (instAtom_no w hva hn)⟩
   | a :: b :: r, hm, ha' =>
     have e : instMaps P x c (a :: b :: r) =
+        if (a :: b :: r).any (dropsInhabited P c) then .error (.hole 3) else
         narrowResult x (unionTys P ((a :: b :: r).map fun a => (instAtom P c a).1))
           (unionTys P ((a :: b :: r).map fun a => (instAtom P c a).2)) ((a :: b :: r).all isInstanceAtom) := rfl
     rw [e] at hm
-    exact narrowResult_sound hm hx _
-      (fun hc => unionTys_sound w (List.mem_map.mpr ⟨a', ha', rfl⟩) (instAtom_yes w hva hc))
-      (fun hn => unionTys_sound w (List.mem_map.mpr ⟨a', ha', rfl⟩) (instAtom_no w hva hn))
+    split at hm
+    · cases hm
+    · next hany =>
+      have hd : dropsInhabited P c a' = false := by
+        cases hda : dropsInhabited P c a' with
+        | false => rfl
+        | true => exact absurd (List.any_eq_true.mpr ⟨a', ha', hda⟩) hany
+      exact narrowResult_sound hm hx _
+        (fun hc => unionTys_sound w (List.mem_map.mpr ⟨a', ha', rfl⟩) (instAtom_yes w hh hd hva hc))
+        (fun hn => unionTys_sound w (List.mem_map.mpr ⟨a', ha', rfl⟩) (instAtom_no w hva hn))
 
 /-! ## `is None` -/
 
